@@ -392,12 +392,22 @@ inline void random_history(vf::Rng& rng, unsigned steps, unsigned nv)
 {
     vf::Chooser ch(&rng);
     vf::registry().reset();
+    std::string text;
+    char lab[96] = "";
+    bool want    = false;
     {
         Subject s;
+        std::snprintf(lab, sizeof lab, "%s random history", s.name());
+        want = vf::want_sample(lab);
         s.init(ch, nv);
-        for (unsigned d = 0; d < steps; ++d) { s.step(ch.pick(Subject::kOps), ch, nv); }
+        if (want && vf::g().sh) { text = std::string(vf::g().sh->op) + " [" + vf::g().sh->args + "]"; }
+        for (unsigned d = 0; d < steps; ++d) {
+            s.step(ch.pick(Subject::kOps), ch, nv);
+            if (want && d < 6 && vf::g().sh) { text += std::string("; ") + vf::g().sh->op + " {" + vf::g().sh->sit + "} [" + vf::g().sh->args + "]"; }
+        }
     }
     vf::registry().reset();
+    if (want) { vf::sample(lab, "%u steps, the first ones: %s ...", steps, text.substr(0, 560).c_str()); }
 }
 
 } // namespace c07
